@@ -342,6 +342,30 @@ def l4(e: Engine, rep: Report):
         fr = n.frame
         if g is not None and isinstance(f, ast.Name):
             f, fr = common.origin(g, f, n.frame)
+        if isinstance(f, ast.Call) and isinstance(f.func, ast.Name) and \
+                not f.keywords:
+            # _inherited(self, 'append')(...): a module-level helper that
+            # hands back getattr(super(...), <its parameter>)
+            hf = e.p.functions.get(fr.ctx.func.module.name + '.' +
+                                   f.func.id)
+            if hf is not None and hf.cls is None:
+                body = [st for st in hf.node.body
+                        if not (isinstance(st, ast.Expr) and
+                                isinstance(st.value, ast.Constant))]
+                if len(body) == 1 and isinstance(body[0], ast.Return):
+                    rv = body[0].value
+                    if isinstance(rv, ast.Call) and \
+                            isinstance(rv.func, ast.Name) and \
+                            rv.func.id == 'getattr' and len(rv.args) == 2 \
+                            and isinstance(rv.args[0], ast.Call) and \
+                            ast.unparse(rv.args[0].func) == 'super' and \
+                            isinstance(rv.args[1], ast.Name) and \
+                            rv.args[1].id in hf.params:
+                        i = hf.params.index(rv.args[1].id)
+                        return i < len(f.args) and \
+                            isinstance(f.args[i], ast.Constant) and \
+                            f.args[i].value == name
+            return False
         if not (isinstance(f, ast.Attribute) and f.attr == name):
             return False
         v = f.value
@@ -499,6 +523,38 @@ def l4(e: Engine, rep: Report):
                 ok = True
             elif len(a) == 1 and shape(a[0], lp.frame, lp) == ('diff',):
                 ok = True
+        # the same count-down written as `while count > 0: release();
+        # count -= 1` with count = len(self) after - before
+        for h, w in common.while_heads(g):
+            t = w.test
+            if not (isinstance(t, ast.Compare) and len(t.ops) == 1 and
+                    isinstance(t.ops[0], ast.Gt) and
+                    isinstance(t.left, ast.Name) and
+                    isinstance(t.comparators[0], ast.Constant) and
+                    t.comparators[0].value == 0):
+                continue
+            cv = t.left.id
+            rel = common.while_iteration_counts(
+                g, h, lambda n: 1 if sema_op(n) == 'release' else 0)
+            dec = common.while_iteration_counts(
+                g, h, lambda n: 1 if n.kind == 'stmt' and
+                isinstance(n.ast, ast.AugAssign) and
+                isinstance(n.ast.op, ast.Sub) and
+                isinstance(n.ast.target, ast.Name) and
+                n.ast.target.id == cv and
+                isinstance(n.ast.value, ast.Constant) and
+                n.ast.value.value == 1 else 0)
+            other = [y for y in walk_own(h.frame.ctx.func.node)
+                     if isinstance(y, ast.Name) and y.id == cv and
+                     isinstance(y.ctx, ast.Store)]
+            if rel != frozenset([1]) or dec != frozenset([1]) or \
+                    len(other) != 1 or when(h) != 'after':
+                continue
+            fr2 = h.frame
+            if cv in fr2.ctx.func.params and cv in fr2.arg_exprs:
+                a0, af0 = fr2.arg_exprs[cv]
+                if shape(a0, af0, enter_of(fr2)) == ('diff',):
+                    ok = True
         # no release outside such a loop
         stray = [n for n in g.nodes if sema_op(n) in ('release', 'acquire')
                  and not any(sc.kind == 'loop' for sc in n.scopes)]
